@@ -119,6 +119,13 @@ class Ctx:
                 self.path.append(cond if val else tm.not_(cond))
             return val
         h = self.hyps()
+        # cheap first: non-linear monomials and special functions opaque (sound for 'unsat')
+        if smt.solve(h + [cond], timeout_s=3.0, want_model=False, linearize=True).status == "unsat":
+            self.log.append([False, True])
+            return False
+        if smt.solve(h + [tm.not_(cond)], timeout_s=3.0, want_model=False, linearize=True).status == "unsat":
+            self.log.append([True, True])
+            return True
         r_true = smt.solve(h + [cond], timeout_s=self.decide_timeout, want_model=False)
         if r_true.status == "unsat":
             self.log.append([False, True])
